@@ -20,12 +20,16 @@ META = {
             "predicate; TLC checks the order/no-loss/no-duplication invariants on the model (and that a faulty channel "
             "violates them) and generates stream scenarios over protocol version x client-side threshold x "
             "backend-side threshold x size classes (empty body, 1 byte, both thresholds -1/0/+1, 2^14 and 2^15 "
-            "boundaries, the largest frame both hops can carry near 2^21, bursts) x id kinds (ids gate has not "
+            "boundaries, the largest frame both hops can carry near 2^21, bursts, and 'held': a frame stopped inside the proxy's "
+            "encoder between compression and write while two other players relay compressible packets through the same "
+            "proxy) x id kinds (ids gate has not "
             "registered for that version/direction incl. multi-byte VarInt ids, a known pass-through packet, a known "
             "intercepted packet). Each scenario is pumped through the live proxy in both directions at once; the "
             "endpoints' send/receive logs (id, length, SHA-256, last-hop framing) are validated by TLC line by line.",
     "design_ref": "DESIGN.md section 4, C15",
-    "level_note": "Unknown ids are looked up through gate's exported state registry (a table lookup that steers the "
+    "level_note": "A 'held' packet uses the gate point enc.frame (encoder.go) so that the interleaving 'other connections encode while "
+                  "this frame is compressed but not yet written' is forced rather than hoped for; the peers' streams are "
+                  "validated as runs of their own. Unknown ids are looked up through gate's exported state registry (a table lookup that steers the "
                   "driver). Known pass-through types are limited to the two whose handlers provably forward the received "
                   "payload (serverbound ClientSettings, clientbound KeepAlive); known intercepted ones (serverbound "
                   "KeepAlive with an id nobody asked for, clientbound BungeeCord plugin message) carry no obligation. "
@@ -41,7 +45,7 @@ META = {
 
 VERSIONS = [47, 340, 754, 762, 763, 765, 767, 774]
 THRP1 = [0, 1, 65, 257]
-SIZES = ["zero", "one", "small", "sm1", "s0", "sp1", "dm1", "d0", "dp1", "k14", "k15", "big", "burst"]
+SIZES = ["zero", "one", "small", "sm1", "s0", "sp1", "dm1", "d0", "dp1", "k14", "k15", "big", "burst", "held"]
 
 
 def gen_cfg(maxsend):
@@ -138,7 +142,7 @@ def run(ctx):
     with open(ctx.path("scen.json"), "w") as fh:
         json.dump(scens, fh)
 
-    ctx.harness("./c15", "TestStreams", env={"VERIF_IDLE_MS": ctx.pick(8000, 20000), "VERIF_PAR": 6},
+    ctx.harness("./c15", "TestStreams", env={"VERIF_IDLE_MS": ctx.pick(8000, 20000), "VERIF_PAR": 6, "VERIF_PROCS": 3},
                 timeout=ctx.pick(600, 2400))
     st = json.load(open(ctx.path("stats.json")))
     stats = st["stats"]
@@ -148,6 +152,8 @@ def run(ctx):
         raise vlib.ToolError("only %d of %d scenarios could be driven: %s" % (stats.get("runs", 0), len(scens), st["skipped"][:5]))
     if not stats.get("received_compressed") or not stats.get("received_1MiB_plus") or not stats.get("received_empty_body_or_tiny"):
         raise vlib.ToolError("coverage hole (compressed / >=1MiB / tiny packets never received): %s" % stats)
+    if not stats.get("frames_held_in_encoder"):
+        raise vlib.ToolError("hook_missing: no frame was ever held at gate point enc.frame (multi-player contention not exercised)")
 
     recs = vlib.read_ndjson(ctx.path("trace.ndjson"))
     rejected, matched, tstates = ctx.validate_runs("Relay_Trace", recs)
@@ -171,6 +177,8 @@ def run(ctx):
         "received_compressed": stats.get("received_compressed", 0),
         "received_1MiB_plus": stats.get("received_1MiB_plus", 0),
         "received_tiny": stats.get("received_empty_body_or_tiny", 0),
+        "players_joined": stats.get("players", 0),
+        "frames_held_in_encoder_while_peers_relayed": stats.get("frames_held_in_encoder", 0),
         "trace_events_validated": matched,
         "exhaustive": False,
     }
